@@ -28,7 +28,7 @@ const ParamInfo& param_info() {
 
 Sut::Sut() { SUT_TRY p_ = new SoPlex(); names_ = new Names(); SP(p_).setIntParam(SoPlex::VERBOSITY, 0); setLogSink(nullptr); SUT_END }
 Sut::Sut(const Sut& o) { SUT_TRY p_ = new SoPlex(SP(o.p_)); names_ = new Names(); static_cast<Names*>(names_)->copyFrom(*static_cast<Names*>(o.names_)); SUT_END }
-Sut::~Sut() { delete static_cast<SoPlex*>(p_); delete static_cast<Names*>(names_); }
+Sut::~Sut() { TsanWindow w; (void)w; delete static_cast<SoPlex*>(p_); delete static_cast<Names*>(names_); }
 void Sut::assign(const Sut& o) { SUT_TRY SP(p_) = SP(o.p_); static_cast<Names*>(names_)->copyFrom(*static_cast<Names*>(o.names_)); SUT_END }
 
 namespace { struct NullBuf : std::streambuf { int overflow(int c) override { return c; } std::streamsize xsputn(const char*, std::streamsize n) override { return n; } };
@@ -161,6 +161,14 @@ int Sut::peekUnscaleCalls() const { return SoplexVerifPeek::unscaleCalls(SP(p_))
 
 double soplex_rational_to_double(const Q& q) { return (double)toR(q); }
 void set_thread_infinity_default() {}
+#if defined(__SANITIZE_THREAD__)
+thread_local int tsan_ignoring = 0;
+void tsan_task_begin() { AnnotateIgnoreReadsBegin(__FILE__, __LINE__); AnnotateIgnoreWritesBegin(__FILE__, __LINE__); tsan_ignoring = 1; }
+void tsan_task_end() { if (tsan_ignoring > 0) { AnnotateIgnoreReadsEnd(__FILE__, __LINE__); AnnotateIgnoreWritesEnd(__FILE__, __LINE__); tsan_ignoring = 0; } }
+#else
+void tsan_task_begin() {}
+void tsan_task_end() {}
+#endif
 
 int stream_read_lp(std::istream& in, bool rational, BareLP& out) {
   SUT_TRY
